@@ -13,6 +13,11 @@ P6 == << <<Op("writefile", "b", "", <<7>>)>>, <<Op("writefile", "b", "", <<8, 9>
 P7 == << <<Op("writefile", "b", "", <<7>>)>>, <<Op("rename", "b", "a", << >>), Op("append", "a", "", <<8, 9>>)>> >>
 P8 == << <<Op("append", "b", "", <<7>>)>>, <<Op("readfile", "b", "", << >>), Op("readfile", "b", "", << >>)>> >>
 P9 == << <<Op("writefile", "b", "", <<8, 9>>)>>, <<Op("readfile", "b", "", << >>), Op("remove", "b", "", << >>)>> >>
+\* directories directly below the root
+P10 == << <<Op("mkdir", "a", "", << >>)>>, <<Op("mkdir", "a", "", << >>), Op("stat", "a", "", << >>)>> >>
+P11 == << <<Op("mkdir", "a", "", << >>)>>, <<Op("rename", "b", "a", << >>), Op("stat", "b", "", << >>)>> >>
+P12 == << <<Op("append", "b", "", <<7>>)>>, <<Op("remove", "b", "", << >>), Op("mkdir", "b", "", << >>)>> >>
+P13 == << <<Op("mkdir", "a", "", << >>), Op("rename", "a", "b", << >>)>>, <<Op("remove", "b", "", << >>)>> >>
 \* (two creators of one name - createappend(b) || remove(b);writefile(b) - violate WriteBackSafe in this model: O_CREATE replaces
 \* whatever took the name since its look-up without counting an unlink; part of the recorded non-atomicity of keyvalue.FS)
 =============================================================================
